@@ -439,6 +439,46 @@ def c05_nested():
                          "address inside a preserved network changed", "should_anonymize")
 
 
+def c_cli_equiv(tag):
+    """the command line hands the IP options to the library unchanged: for several option sets the files written by
+    main() equal what FileAnonymizer gives for the same options passed as lists (same salt)"""
+    import os, shutil, tempfile
+    from netconan import netconan as cli
+    from netconan.anonymize_files import FileAnonymizer
+    text = ("ip address 10.1.2.3 255.255.255.0\nip address 58.63.140.3 0.0.0.255\nneighbor 172.16.9.9 peer 11.22.33.44\n"
+            "ip route 192.168.7.1 203.0.113.77 198.51.100.9\nipv6 address 2001:db8::1/64 fe80::1\nhost 8.8.8.8 224.0.0.5 240.1.2.3\n")
+    classes = "0.0.0.0/1,128.0.0.0/2,192.0.0.0/3,224.0.0.0/4"
+    cases = [(["--preserve-private-addresses"], dict(preserve_networks=list(IpAnonymizer.RFC_1918_NETWORKS))),
+             (["--preserve-private-addresses", "--preserve-prefixes", classes],
+              dict(preserve_networks=list(IpAnonymizer.RFC_1918_NETWORKS), preserve_prefixes=classes.split(","))),
+             (["--preserve-addresses", "203.0.113.0/24,8.8.8.8", "--preserve-private-addresses", "--preserve-prefixes", classes],
+              dict(preserve_networks=["203.0.113.0/24", "8.8.8.8"] + list(IpAnonymizer.RFC_1918_NETWORKS),
+                   preserve_prefixes=classes.split(","))),
+             (["--preserve-addresses", "198.51.100.0/24", "--preserve-host-bits", "0"],
+              dict(preserve_networks=["198.51.100.0/24"], hb=0)),
+             (["--preserve-prefixes", "10.0.0.0/8", "--preserve-host-bits", "12"], dict(preserve_prefixes=["10.0.0.0/8"], hb=12))]
+    for argv, lib_kw in cases:
+        tmp = tempfile.mkdtemp(prefix="rtcli_")
+        try:
+            os.makedirs(os.path.join(tmp, "in"))
+            with open(os.path.join(tmp, "in", "r.cfg"), "w") as f:
+                f.write(text)
+            note((tag, "cli", tuple(argv)))
+            cli.main(["-i", os.path.join(tmp, "in"), "-o", os.path.join(tmp, "out"), "-a", "-s", "cliSalt"] + argv)
+            got = open(os.path.join(tmp, "out", "r.cfg")).read()
+            hb = lib_kw.pop("hb", 8)
+            kw = dict(preserve_prefixes=lib_kw.get("preserve_prefixes", list(IpAnonymizer.DEFAULT_PRESERVED_PREFIXES)),
+                      preserve_networks=lib_kw.get("preserve_networks"))
+            fa = FileAnonymizer(anon_pwd=False, anon_ip=True, salt="cliSalt", preserve_suffix_v4=hb, preserve_suffix_v6=hb, **kw)
+            o = io.StringIO()
+            fa.anonymize_io(io.StringIO(text), o)
+            if got != o.getvalue():
+                fail(tag, {"argv": argv, "cli_output": got, "library_output": o.getvalue()},
+                     "the command line and the library disagree for the same IP options", "main")
+        finally:
+            shutil.rmtree(tmp, ignore_errors=True)
+
+
 def c_text_consistency(tag):
     """What is written for an address in text equals the integer mapping, except for masks and members of
     preserved networks (left as written); block boundaries and their neighbours in particular."""
@@ -505,17 +545,17 @@ def c17():
                      "dump_to_file")
 
 
-CHECKS = {"C01": [c01_tiny, c01_real, lambda: c_text_consistency("C01.text")], "C02": [c02, c02_v6_special], "C03": [c03, c03_text], "C04": [c04],
-          "C05": [c05, c05_nested, lambda: c_text_consistency("C05.text")], "C17": [c17]}
+CHECKS = {"C01": [c01_tiny, c01_real, lambda: c_text_consistency("C01.text"), lambda: c_cli_equiv("C01.cli")], "C02": [c02, c02_v6_special], "C03": [c03, c03_text], "C04": [c04, lambda: c_cli_equiv("C04.cli")],
+          "C05": [c05, c05_nested, lambda: c_text_consistency("C05.text"), lambda: c_cli_equiv("C05.cli")], "C17": [c17]}
 BOUNDS = {
-    "C01": "real base class at widths 1..4 (quick) / 1..5 (thorough), salter truth tables (all for width<=3), all host-bit counts, "
+    "C01": "5 IP option sets through main() compared with the library given the same options as lists; real base class at widths 1..4 (quick) / 1..5 (thorough), salter truth tables (all for width<=3), all host-bit counts, "
            "5 seed sets, all address pairs; real IpAnonymizer/IpV6Anonymizer: 7 configurations x every common-prefix length x 2/20 pairs",
     "C02": "same tiny space with fresh-instance undo; 12 real configurations; 2 text lines x 3 configurations for file-level undo; "
            "4 configurations x (11 special IPv6 blocks x 2/20 members and pre-images + 40/1000 random addresses) anonymize + fresh undo at text level",
     "C03": "300/5000 tiny configurations x random anonymize/undo histories of length 3*2^w vs fresh instance per request; "
            "text-level API: 4 real configurations x 2 families x 8/60 interleaved anonymize/undo lines vs fresh instance",
-    "C04": "tiny space (prefix both ways, host bits, head independence); 12 real configurations x boundary and random addresses, both families",
-    "C05": "all 64 masks x 32 one-bit perturbations through the real _is_mask; 300/5000 preserved and outside addresses; "
+    "C04": "5 IP option sets through main() compared with the library given the same options as lists; tiny space (prefix both ways, host bits, head independence); 12 real configurations x boundary and random addresses, both families",
+    "C05": "5 IP option sets through main() compared with the library given the same options as lists; all 64 masks x 32 one-bit perturbations through the real _is_mask; 300/5000 preserved and outside addresses; "
            "5 nested/overlapping preserved-network lists x 2 host-bit counts x boundary, post-inner-block and random members",
     "C17": "12 configurations x 30/400 generated lines, dump parsed back and compared with the applied replacements and a fresh mapping",
 }
